@@ -263,3 +263,52 @@ Theorem C13_prefix_witnesses :
           <> fst (doc_walk b' (fun _ => false) 5 (mk_state "start" (Some [])) [JStr "1"]).
 Proof. exact (conj prefix_bare_variable prefix_string_becomes_number). Qed.
 Print Assumptions C13_prefix_witnesses.
+
+(** * Pattern texts and persisted states with string escapes
+    (Model/JsonTextEsc.v: the encoder's and the decoder's treatment of
+    quotes, backslashes, control characters, [<], [>], [&]) *)
+From Sheens Require Import Model.JsonTextEsc Proofs.JsonTextEscProofs.
+
+(** the decoder inverts the encoder on every value all of whose strings
+    (keys included) are made of bytes below 128, whatever those bytes are *)
+Theorem C13_parse_print_escapes :
+  forall j, ascii_json j = true -> parse_esc (print_esc j) = Some j.
+Proof. exact parse_print_esc. Qed.
+Print Assumptions C13_parse_print_escapes.
+
+(** the heart of it: one string literal, followed by anything *)
+Theorem C13_parse_print_string_escapes :
+  forall s rest,
+    ascii_string s = true -> parse_string_esc (print_str_esc s ++ rest) = Some (s, rest).
+Proof. exact parse_string_esc_print. Qed.
+Print Assumptions C13_parse_print_string_escapes.
+
+(** the model with escapes extends the model without them: where no string
+    needs an escape the two printers write the same text, and whatever text
+    the parser without escapes reads (printed or not, with white space or
+    without), the parser with escapes reads as the same value *)
+Theorem C13_escapes_conservative :
+  (forall j, noesc_json j = true -> print_esc j = print j)
+  /\ (forall s j, parse s = Some j -> parse_esc s = Some j).
+Proof. exact (conj print_esc_noesc parse_esc_conservative). Qed.
+Print Assumptions C13_escapes_conservative.
+
+(** non-vacuity: a string with a quote, a backslash, a newline, [<], [>] and
+    [&], as a key and as a value; the text Go writes for it; the model
+    without escapes does not read that string back; escapes that only a
+    person writes *)
+Definition ex_esc_string : string :=
+  ("say ""hi"" \ <b>" ++ String "010"%char "&")%string.
+Definition ex_esc_value : json := JObj [(ex_esc_string, JArr [JStr ex_esc_string; JNum 10])].
+
+Example C13_parse_print_escapes_nonvacuous :
+  ascii_json ex_esc_value = true /\ noesc_json ex_esc_value = false
+  /\ print_esc (JStr ex_esc_string) = """say \""hi\"" \\ \u003cb\u003e\n\u0026"""
+  /\ parse_esc (print_esc ex_esc_value) = Some ex_esc_value
+  /\ parse (print (JStr ex_esc_string)) = None
+  /\ parse_esc "[ ""\/\b\u0041\u004A\u004a"" ]"
+     = Some (JArr [JStr ("/" ++ String "008"%char "AJJ")%string])
+  /\ parse_esc """\u00e9""" = None /\ parse_esc """\x""" = None
+  /\ noesc_json (JObj [("likes", JStr "?x")]) = true
+  /\ print_esc (JObj [("likes", JStr "?x")]) = "{""likes"":""?x""}".
+Proof. repeat split; vm_compute; reflexivity. Qed.
